@@ -420,7 +420,7 @@ def convention_cases():
 def bounded(tier, seed):
     n = 0
     kinds_all = 'REeT'
-    for N in (1, 2, 3) if tier == 'thorough' else (1, 2):
+    for N in (1, 2, 3, 4) if tier == 'thorough' else (1, 2):
         for kinds in itertools.product(kinds_all, repeat=N):
             for order in itertools.permutations(range(N)):
                 n += 1
@@ -433,7 +433,7 @@ def bounded(tier, seed):
                     if f:
                         return n, f, {'kinds': ''.join(kinds), 'order': list(order), 'connection_lost_before_step': la}
     rnd = random.Random(seed)
-    for _ in range(1500 if tier == 'thorough' else 30):
+    for _ in range(10000 if tier == 'thorough' else 30):
         N = rnd.randrange(3, 6)
         kinds = [rnd.choice(kinds_all) for _ in range(N)]
         order = list(range(N))
